@@ -27,6 +27,7 @@ CONSTANTS
   StopHooksMayFail = FALSE
   DrainOnClose = TRUE
   ReportBeforeRelease = FALSE
+  ReserveIgnoresStarting = FALSE
 SPECIFICATION FairSpec
 INVARIANTS TypeOK SerialFifo Conservation HandlingOnlyWhileRunning HookOrder CallSound RegistrySound FailedStartFreesName SupervisionSound GroupExactlyOne GroupLockSound GroupTriesEachOnce
 PROPERTIES CallNeverHangs
